@@ -14,7 +14,7 @@ ID = "C02"
 META = {
     "bounds": {
         "quick": "N=1 event (the code is elementwise); detector altitude, angle from limb, cone angle, azimuth range, detector latitude/longitude and u in the CLOSED cube [0,1]^4 symbolic; init lemmas on the real __init__ terms, then the path-length bounds generalised (Lmin, Lmax fresh with exactly the proved facts)",
-        "thorough": "same with N=2 events for cross-event independence; second solver",
+        "thorough": "same claims with 600 s per obligation and /usr/bin/z3 4.8.12 as second solver on the deciding assertion subsets; the QF_FP bug hunt on three altitude windows (30-40, 395-405, 0.9-1.1 km); repeated throws on one object",
     },
     "outside_bounds": ["IEEE rounding on the faces of the cube (u4 = 0 / 1): the REAL-mode claims are exact-arithmetic statements; the floating-point root selection at the faces is examined by the bug-hunting job (QF_FP, libm arbitrary) and recorded as a known finding, not a proof",
                        "positions along the trajectory for s > 0: known finding (see known_findings.json); s = 0 is proved"],
@@ -494,19 +494,34 @@ def fp_face_job(lo_alt=30.0, hi_alt=40.0):
     import time as _t
 
     t0 = _t.time()
-    r = str(s.check())
-    dt = _t.time() - t0
-    v = {"obligation": f"face u4 = 0 (IEEE double, bit-precise, detector altitude in [{lo_alt}, {hi_alt}] km): the rounded discriminant q^3 + r^2 is never positive, so the trigonometric root in [Lmin, Lmax] is selected",
-         "verdict": r if r != "unsat" else "unsat", "time_s": round(dt, 3), "kind": "claim"}
-    if r == "sat":
-        m = s.model()
-        hv = m[h]
+    tried, nq, model = [], 0, None
+    # pow(Lmax, 3) is modelled as fl(fl(Lmax*Lmax)*Lmax); where libm's pow differs by an ulp a model of the encoding is not
+    # a model of the real code: such an altitude is excluded and the solver is asked again (at most 8 times)
+    while True:
+        r = str(s.check())
+        nq += 1
+        if r != "sat" or nq > 8:
+            break
+        hv = s.model()[h]
         alt = float(hv.significand()) * 2.0 ** hv.exponent_as_long(False)  # decode the double
         if hv.isNegative():
             alt = -alt
-        v["model"] = {"det_alt": alt, "u4": 0.0}
+        g_, cap_ = _real_face(alt, 0.0)
+        L_, kept_ = float(g_.losPathLen[0]), bool(g_.event_mask[0])
+        if kept_ and not (float(g_.minLOSpathLen) <= L_ <= float(g_.maxLOSpathLen)):
+            model = alt
+            break
+        tried.append(alt)
+        s.add(z3.Not(z3.fpEQ(h, z3.FPVal(alt, F))))
+    dt = _t.time() - t0
+    v = {"obligation": f"face u4 = 0 (IEEE double, bit-precise, detector altitude in [{lo_alt}, {hi_alt}] km): the rounded discriminant q^3 + r^2 is never positive, so the trigonometric root in [Lmin, Lmax] is selected",
+         "verdict": "sat" if model is not None else (r if r == "unsat" else "unknown"), "time_s": round(dt, 3), "kind": "claim"}
+    if model is not None:
+        v["model"] = {"det_alt": model, "u4": 0.0}
+    if tried:
+        v["reason"] = f"models of the encoding that the real code does not follow (libm pow vs two multiplications): {tried}"
     verdicts.append(v)
-    return {"verdicts": verdicts, "queries": 1 + ok, "paths": 1, "solver_time": dt, "info": [{"transcription_checked_on": ok}]}
+    return {"verdicts": verdicts, "queries": nq + ok, "paths": 1, "solver_time": dt, "info": [{"transcription_checked_on": ok}]}
 
 
 def _geom_sampler(symbolic_det=False, generalised=True, sliced=False, steep=False):
@@ -633,15 +648,19 @@ def job_along(s_zero, tier):
                            timeout_ms=60000 if tier == "quick" else 600000, prune_timeout_ms=4000, twin=s_zero)
 
 
-def job_fp_face(tier):
-    rng = (30.0, 40.0) if tier == "quick" else (1.0, 36000.0)
-    return harness.plain_job("floating-point face u4 = 0 (QF_FP bug hunt)", lambda: fp_face_job(*rng))
+def job_fp_face(tier, window=None):
+    # (the whole range [1, 36000] km in one query was tried for the thorough tier: the first eight models all sit where
+    # libm's pow and the two-multiplication model of Lmax**3 differ by an ulp, and the ninth query does not finish in 10 min;
+    # the thorough tier asks the question on three windows instead)
+    rng = tuple(window) if window else (30.0, 40.0)
+    return harness.plain_job(f"floating-point face u4 = 0 (QF_FP bug hunt, altitude window {rng[0]:g}-{rng[1]:g} km)", lambda: fp_face_job(*rng))
 
 
 def jobs(tier, seed):
     return [("init", "job_init", {"tier": tier}), ("bracket", "job_bracket", {"tier": tier}), ("cubic", "job_cubic", {"tier": tier}),
             ("spot", "job_spot", {"tier": tier}), ("beta", "job_beta", {"tier": tier}), ("along0", "job_along", {"s_zero": True, "tier": tier}),
-            ("alongs", "job_along", {"s_zero": False, "tier": tier}), ("fp", "job_fp_face", {"tier": tier}), ("rethrow", "job_rethrow", {"tier": tier})]
+            ("alongs", "job_along", {"s_zero": False, "tier": tier}), ("fp", "job_fp_face", {"tier": tier}), ("rethrow", "job_rethrow", {"tier": tier})] + (
+        [("fp400", "job_fp_face", {"tier": tier, "window": [395.0, 405.0]}), ("fp1", "job_fp_face", {"tier": tier, "window": [0.9, 1.1]})] if tier == "thorough" else [])
 
 
 def replay(v):
@@ -651,7 +670,7 @@ def replay(v):
 
     job, ob = v.get("job", ""), v["obligation"]
     m = {k: x for k, x in (v.get("model") or {}).items() if x is not None}
-    if job.startswith("floating-point face"):
+    if job.startswith("floating-point face"):  # (any altitude window)
         alt = m.get("det_alt")
         if alt is None:
             return {"reproduced": False, "key": None, "detail": "no altitude in the model"}
